@@ -399,6 +399,9 @@ var apiMethodRe = regexp.MustCompile(`^ interface, ([A-Za-z_][A-Za-z0-9_]*)\(`)
 
 func (e *apiEntry) rec(plat string) *apiRec {
 	r := &apiRec{Kind: e.kind, Since: e.since, valRel: -1}
+	if !apiCovered[plat] {
+		return r // a value stated without platform holds on the platforms the api files cover only
+	}
 	for _, v := range e.values {
 		if v.plat != "" && v.plat != plat {
 			continue
@@ -1256,11 +1259,19 @@ func bindStrLit(x string) string {
 	return "(bs [" + strings.Join(parts, ";") + "])"
 }
 
+// bindZ renders an integer; large ones in hexadecimal (Coq reads those much faster).
 func bindZ(z *big.Int) string {
-	if z.Sign() < 0 {
-		return "(" + z.String() + ")"
+	t := z.String()
+	if z.BitLen() > 64 {
+		t = "0x" + new(big.Int).Abs(z).Text(16)
+		if z.Sign() < 0 {
+			t = "-" + t
+		}
 	}
-	return z.String()
+	if z.Sign() < 0 {
+		return "(" + t + ")"
+	}
+	return t
 }
 
 func bindTok(t string) string {
